@@ -357,6 +357,9 @@ func c05(ctx *Ctx) (*Outcome, error) {
 	for i := 0; i < 5; i++ {
 		cases = append(cases, draftNumericCase(i))
 	}
+	for i := 0; i < 2; i++ {
+		cases = append(cases, legacyNumericKeywordCase(i))
+	}
 	n := ctx.N(150, 4000)
 	for i := 0; i < n; i++ {
 		r := sg.NewRng(ctx.Seed, fmt.Sprintf("C05-case-%d", i))
